@@ -141,7 +141,7 @@ def harnesses(tier):
     stubs = ['fakezmq', 'JSON envelope carried as dict', 'virtual clock (symbolic now)', 'logger off']
     assume = ['pre-state: >=1 live synchronized client tracked (with no synchronized consumer at all an ephemeral listener legitimately lets the publisher run)',
               'both runs of the self-composition see the same clock value']
-    return [
+    hs = [
         Harness('c05.send_noninterference', noninterference(2, 1 if q else 2), twin=noninterference(1, 1, planted=True),
                 bounds={'clients': '1-2 sync + 0-1 ephemeral in table, all fields symbolic', 'sync requests': '<=2', 'ephemeral requests': '<=1' if q else '<=2',
                         'ephemeral kinds': 'request / new / CLOSE from known or unknown ephemeral client, ids unbounded', 'interleaving position': 'symbolic'},
@@ -151,6 +151,19 @@ def harnesses(tier):
                 functions=fn, stubs=stubs, assumptions=['per-connection FIFO'], budget_s=1200),
         Harness('c05.eph2_silent', eph2_silent, bounds={'publishes': 2, 'polls': 8}, functions=fn, stubs=stubs, assumptions=[], budget_s=120),
     ]
+    from props import s_level as SL
+    tw = SL.c05_ephemeral(2, {}, {'pB': 0}, planted=True)
+    hs.append(SL.H('c05.S.stalled_listener', SL.c05_ephemeral(3, {'pB': (0, 300)}, {'sE': 0}, mode='stall', eph='?'), twin=tw,
+                   bounds={'topology': "publisher + synchronized sink + '?' listener that stalls for ever after its first frame; compared with the same run without the listener",
+                           'frames': 3, 'free timing (ms)': {'pB': [0, 300]}}))
+    hs.append(SL.H('c05.S.dead_listener', SL.c05_ephemeral(3, {'kE': (50, 400)}, {'pB': 60}, mode='kill', eph='?'),
+                   bounds={'topology': "'?' listener killed at a symbolic instant", 'frames': 3, 'free (ms)': {'kill instant': [50, 400]}}))
+    if not q:
+        hs.append(SL.H('c05.S.stalled_listener2', SL.c05_ephemeral(4, {'pB': (0, 300), 'sE': (0, 400)}, mode='stall', eph='??'),
+                       bounds={'topology': "'??' listener joining at a symbolic instant", 'frames': 4, 'free timing (ms)': {'pB': [0, 300], 'sE': [0, 400]}}, budget=3000))
+        hs.append(SL.H('c05.S.dead_listener.pA', SL.c05_ephemeral(4, {'kE': (50, 400), 'pA': (0, 200)}, {'pB': 60}, mode='kill', eph='?'),
+                       bounds={'topology': "'?' listener killed at a symbolic instant", 'frames': 4, 'free (ms)': {'kE': [50, 400], 'pA': [0, 200]}}, budget=3000))
+    return hs
 
 
 EXPLANATION = ('self-composition on the real ZMQSender.send: the same symbolic client table and synchronized request backlog is run with and without an '
